@@ -442,6 +442,10 @@ def ann_sets(tier, callable_, layout, site):
         for t in ['type FooRec', 'type GLib.List(utf8)', 'type GObject.Object', 'type gint']:
             for x in G.TRANSFER + ['out', 'nullable', 'allow-none']:
                 out.append([x, t])              # menu order, as in the thorough tier
+        # value-less option spellings on out / inout parameters
+        for d in ['out', 'inout']:
+            for x in ['array zero-terminated', 'array zero-terminated length=n', 'array fixed-size=3 zero-terminated']:
+                out.append([d, x])
     return out
 
 
